@@ -503,7 +503,9 @@ func (ex *Exec) selectStmt(fr *Frame, x *ssa.Select) Value {
 			}
 		case ch.TimerID > 0:
 			t := ex.timers[ch.TimerID-1]
-			if t.Stopped {
+			if t.Stopped || ex.h.NoTimers {
+				// timers=off: the environment never lets a timer fire (what happens "without any
+				// time-out" is the question of the harness)
 				ready[i], never[i] = ts.Bool(false), ts.Bool(true)
 			} else {
 				fire := ts.IntBin("add", t.ArmedAt, t.D)
